@@ -109,13 +109,31 @@ def strip_comments(text: str) -> str:
     return "".join(out)
 
 
-def lean_sources() -> list[Path]:
-    return sorted(p for p in LEAN.rglob("*.lean") if ".lake" not in p.parts)
+def lean_sources(roots: list[str] | None = None) -> list[Path]:
+    """Lean files of this project; with `roots` only the import closure of those modules (what the property's theorems
+    and the model driver actually depend on)."""
+    if roots is None:
+        return sorted(p for p in LEAN.rglob("*.lean") if ".lake" not in p.parts)
+    seen: dict[str, Path] = {}
+    todo = list(roots)
+    while todo:
+        mod = todo.pop()
+        if mod in seen:
+            continue
+        path = LEAN / (mod.replace(".", "/") + ".lean")
+        if not path.exists():
+            continue
+        seen[mod] = path
+        for line in strip_comments(path.read_text()).splitlines():
+            m = re.match(r"\s*(?:public\s+)?import\s+(\S+)", line)
+            if m:
+                todo.append(m.group(1))
+    return sorted(seen.values())
 
 
-def grep_forbidden() -> list[str]:
+def grep_forbidden(roots: list[str] | None = None) -> list[str]:
     hits = []
-    for p in lean_sources():
+    for p in lean_sources(roots):
         for n, line in enumerate(strip_comments(p.read_text()).splitlines(), 1):
             if FORBIDDEN.search(line):
                 hits.append(f"{p.relative_to(LEAN)}:{n}: {line.strip()}")
@@ -288,7 +306,7 @@ def run_check(comp, tier: str, seed: int, replay: str | None = None) -> int:
     # 1. Lean build (sources live in /verif; failure = infrastructure error)
     lean_build([comp.PROPS_MODULE, "hwmodel"])
     # 2. audit
-    hits = grep_forbidden()
+    hits = grep_forbidden([comp.PROPS_MODULE, "Main"])
     if hits:
         raise Infra("forbidden construct in Lean sources:\n" + "\n".join(hits))
     thms, examples = theorems_of(comp.PROPS_MODULE)
@@ -384,7 +402,8 @@ def run_check(comp, tier: str, seed: int, replay: str | None = None) -> int:
         violations.append((sig, p, True))
 
     # 5b. correspondence disagreements that no monitor failure explains: failing-input search
-    unexplained = [i for i in disagreements if not any(i in idxs for idxs in failures.values())]
+    unexplained = [i for i in disagreements
+                   if not any(i in idxs for sig, idxs in failures.items() if sig not in known_sigs)]
     searched = 0
     if unexplained and not violations:
         c0 = min((cases[i] for i in unexplained), key=len)
